@@ -20,6 +20,7 @@
 
 
 #include <string>
+#include "celma/log/detail/log_attributes_container.hpp"
 
 
 namespace celma { namespace log { namespace detail {
@@ -48,8 +49,11 @@ public:
    ScopedAttribute( const ScopedAttribute&) = default;
    ScopedAttribute( ScopedAttribute&&) = delete;
 
-   /// Destructor, removes the attribute again.
+   /// Destructor, removes the attribute again: Exactly the entry that the
+   /// constructor added, also when other attributes with the same name were
+   /// added or removed in the meantime.
    ///
+   /// @since  1.47.0, 30.09.2026  (removes its own entry)
    /// @since  1.15.0, 11.10.2018
    ~ScopedAttribute();
 
@@ -58,8 +62,8 @@ public:
    ScopedAttribute& operator =( ScopedAttribute&&) = delete;
 
 private:
-   /// The name of the attribute. Used to remove the attribute again.
-   const std::string  mAttributeName;
+   /// The id of the attribute entry. Used to remove the attribute again.
+   const LogAttributesContainer::attr_id_t  mAttributeId;
 
 }; // ScopedAttribute
 
